@@ -292,6 +292,14 @@ def gen_c09_server(rng, thorough=False):
         steps = [conn(0, tls={"cert": cert, "versions": ["1.2", "1.3"]}), req(0, req_read(3, 0, 2), 1), req(0, req_wsr(1, 5), 1),
                  req(0, req_wmc(1, [True, False]), 2), close(0)]
         scs.append(scenario(len(scs), steps, variant="tls_authz", max_sessions=2, auth="hash", tag=f"c09-role-{cert}"))
+    # a peer may present its whole chain (its own certificate first, then the issuer's): identity and role are those of the
+    # FIRST certificate, and a valid peer is admitted whether or not it sends the chain
+    for variant in ("tls", "tls_authz"):
+        for cert in ("client_operator", "client_viewer", "client_norole"):
+            steps = [conn(0, tls={"cert": cert, "versions": ["1.2", "1.3"], "chain": ["ca1"]}), req(0, req_read(3, 0, 2), 1),
+                     req(0, req_wsr(1, 5), 1), close(0)]
+            scs.append(scenario(len(scs), steps, variant=variant, max_sessions=2, auth="hash" if variant == "tls_authz" else None,
+                                tag=f"c09-chain-presented-{variant}-{cert}"))
     return scs
 
 
@@ -395,6 +403,8 @@ SERVER_CERTS = ["server", "server_othername", "server_ca2", "server_expired", "s
 def gen_c09_client(rng, thorough=False):
     scs = []
     grid = [("ca", "ca1", "test.com"), ("ca", "ca1", None), ("ca", "ca1", "other.example"), ("ca", "ca2", "test.com"),
+            # an expected name may also be an IP literal: it is verified like any other name (no fixture certificate is valid for one)
+            ("ca", "ca1", "127.0.0.1"), ("ca", "ca1", "::1"),
             ("self", "ss_a", None), ("self", "ss_expired", None)]
     for (mode, trust, name) in grid:
         for min_tls in ("1.2", "1.3"):
@@ -416,6 +426,7 @@ def gen_cabi_tls_client(rng, thorough=False):
     scs = []
     grid = [("ca", "ca1", "test.com", False), ("ca", "ca1", "test.com", True), ("ca", "ca1", "other.example", False),
             ("ca", "ca1", "other.example", True), ("ca", "ca1", "*", True), ("ca", "ca2", "test.com", True),
+            ("ca", "ca1", "127.0.0.1", True),
             ("self", "ss_a", "ignored.example", False), ("self", "ss_a", "*", True)]
     certs = SERVER_CERTS if thorough else ["server", "server_othername", "server_ca2", "ss_a", "ss_b"]
     for (mode, trust, dns, wildcard) in grid:
